@@ -18,6 +18,8 @@ type specInfo struct {
 	inProg    bool
 	done      bool
 	recursive bool
+	fuel      int
+	fuelKnown bool
 }
 
 // flattenArg: SMT arguments for a Go value passed to a spec function.
@@ -66,7 +68,116 @@ func (x *Exec) specApp(st *State, fn *types.Func, e *ast.CallExpr) Val {
 		args = append(args, x.heapGet(st, d, si.DepSorts[i]))
 	}
 	rt := sig.Results().At(0).Type()
-	return Val{Typ: rt, T: x.c.App(si.Name, args...)}
+	return Val{Typ: rt, T: x.specInstance(si, args, 0)}
+}
+
+// specInstance: an application of a spec function. Non-recursive definitions are inlined;
+// recursive ones are unfolded when their decreasing argument is a small literal (so that e.g. a
+// fold over the 20 header bytes becomes a closed term). Functions named in an `opaque` clause of
+// the contract under verification are never inlined.
+func (x *Exec) specInstance(si *specInfo, args []*Term, depth int) *Term {
+	c := x.c
+	d := c.funcs[si.Name]
+	opaque := x.con != nil && x.con.Opaque[si.Fn.Name()]
+	if x.rootCon != nil && x.rootCon.Opaque[si.Fn.Name()] {
+		opaque = true
+	}
+	if d == nil || d.Body == nil || opaque || si.inProg || depth > 80 {
+		return c.App(si.Name, args...)
+	}
+	if d.Rec {
+		fuel := x.fuelParam(si, d)
+		if fuel < 0 || !args[fuel].IsLit() {
+			return c.App(si.Name, args...)
+		}
+		v := args[fuel].SignedVal()
+		if !v.IsInt64() || v.Int64() > 64 {
+			return c.App(si.Name, args...)
+		}
+	}
+	m := map[int]*Term{}
+	for i, pn := range d.ParamNames {
+		m[x.paramTerm(d, i, pn).id] = args[i]
+	}
+	body := c.Subst(d.Body, m)
+	// unfold nested applications of recursive spec functions whose fuel became a literal
+	return x.unfoldSelf(si, body, depth+1)
+}
+
+func (x *Exec) paramTerm(d *FuncDecl, i int, name string) *Term {
+	return x.c.intern(&Term{op: name, kind: kBound, sort: d.Params[i]})
+}
+
+func (x *Exec) unfoldSelf(si *specInfo, t *Term, depth int) *Term {
+	c := x.c
+	memo := map[int]*Term{}
+	var rec func(u *Term) *Term
+	rec = func(u *Term) *Term {
+		if len(u.args) == 0 {
+			return u
+		}
+		if r, ok := memo[u.id]; ok {
+			return r
+		}
+		nargs := make([]*Term, len(u.args))
+		changed := false
+		for i, a := range u.args {
+			nargs[i] = rec(a)
+			if nargs[i] != a {
+				changed = true
+			}
+		}
+		var r *Term
+		if sj := x.specByName(u); sj != nil {
+			r = x.specInstance(sj, nargs, depth)
+		} else if !changed {
+			r = u
+		} else if u.kind == kForall || u.kind == kExists {
+			r = u // quantified bodies are left alone
+		} else {
+			r = c.rebuild(u, nargs)
+		}
+		memo[u.id] = r
+		return r
+	}
+	return rec(t)
+}
+
+// fuelParam: index of the single parameter that changes in the recursive applications (-1 if unclear).
+func (x *Exec) fuelParam(si *specInfo, d *FuncDecl) int {
+	if si.fuelKnown {
+		return si.fuel
+	}
+	si.fuelKnown = true
+	si.fuel = -1
+	cand := map[int]bool{}
+	seen := map[int]bool{}
+	var walk func(t *Term)
+	walk = func(t *Term) {
+		if seen[t.id] {
+			return
+		}
+		seen[t.id] = true
+		if t.kind == kApp && t.op == si.Name {
+			for i, a := range t.args {
+				if !(a.kind == kBound && a.op == d.ParamNames[i]) {
+					cand[i] = true
+				}
+			}
+		}
+		for _, a := range t.args {
+			walk(a)
+		}
+	}
+	walk(d.Body)
+	if len(cand) == 1 {
+		for i := range cand {
+			if d.Params[i] == SInt || d.Params[i].IsBV() {
+				si.fuel = i
+			}
+		}
+	}
+	return si.fuel
 }
 
 func (x *Exec) specFor(fn *types.Func) *specInfo {
@@ -118,7 +229,7 @@ func (x *Exec) translateSpecBody(si *specInfo, decl *ast.FuncDecl, info *types.I
 	c := x.c
 	sx := &Exec{eng: x.eng, c: c, mode: x.mode, con: nil, info: info, key: si.Name, counters: map[string]int{}, boxed: map[types.Object]bool{},
 		placehold: map[string]Val{}, assumed: x.assumed, abstract: x.abstract, specMode: true, specHeap: map[string]*Term{}, loopOrd: map[ast.Stmt]int{},
-		rangeFacts: map[int]bool{}, callCount: map[string]int{}, specs: x.specs, globalInit: map[string]bool{}}
+		rangeFacts: map[int]bool{}, callCount: map[string]int{}, specs: x.specs, globalInit: map[string]bool{}, rootCon: x.rootOrCon()}
 	var depNames []string
 	sx.specDeps = &depNames
 	// dependencies known from a previous iteration keep their order
@@ -238,3 +349,20 @@ func (x *Exec) translateSpecBody(si *specInfo, decl *ast.FuncDecl, info *types.I
 }
 
 func init() { _ = fmt.Sprint }
+
+func (x *Exec) rootOrCon() *Contract {
+	if x.rootCon != nil {
+		return x.rootCon
+	}
+	return x.con
+}
+
+func (x *Exec) specByName(u *Term) *specInfo {
+	if u.kind != kApp {
+		return nil
+	}
+	if si, ok := x.specs[u.op]; ok && si.done && si.recursive {
+		return si
+	}
+	return nil
+}
